@@ -12,6 +12,11 @@ func uint24to32(b []byte) uint32 {
 	return uint32(b[0])<<16 | uint32(b[1])<<8 | uint32(b[2])
 }
 
+// pad4 returns n padded to 4 bytes.
+func pad4(n int) int {
+	return n + ((4 - n) & 3)
+}
+
 // uint32to24 converts b from uint32 to []byte in network byte order.
 func uint32to24(n uint32) []byte {
 	return []byte{uint8(n >> 16), uint8(n >> 8), uint8(n)}
